@@ -136,7 +136,7 @@ func crashOracle(w *World, i int, op Op, obs string) *Mismatch {
 		}
 		// look-alikes crafted for the position they will land at (end of the image): magic framing, offset and
 		// lengths consistent, but not a root record: wrong version, garbled JSON, header length != trailer length
-		for variant := 0; variant < 3; variant++ {
+		for variant := 0; variant < 4; variant++ {
 			js = append(js, append([]byte(lookAlikeMark), byte(variant))) // placeholder, expanded per image below
 		}
 		// byte-exact copies of OLDER root records of this history (their recorded offset no longer
@@ -303,10 +303,14 @@ func lookAlikeRoot(off int64, variant int) []byte {
 		version = 3
 	case 1:
 		js = []byte(`{"zz":{"o":1,"l":`)
+	case 3:
+		// well-formed JSON whose LATER entry has the wrong type: the record is rejected as a whole and must leave
+		// no trace (no "ghost" collection) in the store that is recovered from an earlier root record
+		js = []byte(`{"ghost":{"o":1,"l":52},"zz":5}`)
 	}
 	length := uint32(12 + 4 + 4 + len(js) + 8 + 4 + 12)
 	hdrLen := length
-	if variant != 0 && variant != 1 {
+	if variant != 0 && variant != 1 && variant != 3 {
 		hdrLen = length + 1 // every other variant number: header length != trailer length (never a valid record)
 	}
 	b := []byte("0g1t2r0g1t2r")
